@@ -370,3 +370,6 @@ func (c *Cluster) Env() client.Client { return c.fake }
 var bg = context.Background()
 
 func keyOf(ns, name string) types.NamespacedName { return types.NamespacedName{Namespace: ns, Name: name} }
+
+// KeyOf builds a namespaced name.
+func KeyOf(ns, name string) types.NamespacedName { return keyOf(ns, name) }
